@@ -129,3 +129,147 @@ def closures_in(body, blocks):
 
 JOIN_RX = r"(try_join_all::try_join_all$|join_all::join_all$|try_join\d?$|::join\d?$|FuturesUnordered|futures_unordered|select_all|buffer_unordered|buffered|FuturesOrdered|futures_ordered|::select$)"
 UNORDERED_RX = r"(FuturesUnordered|futures_unordered|select_all|buffer_unordered|for_each_concurrent|::select$|select_ok|try_select)"
+
+
+INT_BOUNDS = {
+    "i8": (-(2 ** 7), 2 ** 7 - 1), "i16": (-(2 ** 15), 2 ** 15 - 1), "i32": (-(2 ** 31), 2 ** 31 - 1),
+    "i64": (-(2 ** 63), 2 ** 63 - 1), "i128": (-(2 ** 127), 2 ** 127 - 1), "isize": (-(2 ** 63), 2 ** 63 - 1),
+    "u8": (0, 2 ** 8 - 1), "u16": (0, 2 ** 16 - 1), "u32": (0, 2 ** 32 - 1), "u64": (0, 2 ** 64 - 1),
+    "u128": (0, 2 ** 128 - 1), "usize": (0, 2 ** 64 - 1),
+}
+
+
+def wrap_int(v, ty):
+    lo, hi = INT_BOUNDS[ty]
+    width = hi - lo + 1
+    return (v - lo) % width + lo
+
+
+def const_eval(body, op, depth=0):
+    """evaluate an operand to an integer when it is a literal, a single-def copy, or an int cast of one"""
+    if depth > 8 or op is None:
+        return None
+    if op[0] == "k":
+        return body.kint(op)
+    p = op[1]
+    if len(p) != 1:
+        return None
+    defs = body.defs_of_local(p[0])
+    if len(defs) != 1:
+        return None
+    r = defs[0][1][1]
+    if r[0] == "use":
+        return const_eval(body, r[1], depth + 1)
+    if r[0] == "cast" and r[1] == "IntToInt":
+        v = const_eval(body, r[2], depth + 1)
+        if v is None or r[3] not in INT_BOUNDS:
+            return None
+        return wrap_int(v, r[3])
+    if r[0] == "un" and r[1] == "Neg":
+        v = const_eval(body, r[2], depth + 1)
+        return -v if v is not None else None
+    return None
+
+
+def same_value(body, op_a, op_b, depth=0):
+    """do two operands denote the same runtime value (copies of one local)?"""
+    def root(op):
+        seen = set()
+        while op and op[0] in ("c", "m") and len(op[1]) == 1 and op[1][0] not in seen:
+            seen.add(op[1][0])
+            defs = body.defs_of_local(op[1][0])
+            if len(defs) == 1 and defs[0][1][1][0] == "use" and defs[0][1][1][1][0] in ("c", "m"):
+                op = defs[0][1][1][1]
+            else:
+                break
+        return op
+    a, b = root(op_a), root(op_b)
+    return a[0] in ("c", "m") and b[0] in ("c", "m") and a[1] == b[1]
+
+
+def comparisons(body):
+    """[(bb, op, lhs, rhs, dest_local, true_target, false_target)] for compare statements that feed the block's switch"""
+    out = []
+    for bb, s in body.all_stmts():
+        r = s[1]
+        if r[0] == "bin" and r[1] in ("Lt", "Le", "Gt", "Ge", "Eq", "Ne"):
+            dest = s[0][0]
+            t = body.term(bb)
+            tt = ft = None
+            if t[0] == "switch" and t[1][0] in ("c", "m") and t[1][1] == [dest]:
+                for v, tgt in t[2]:
+                    if v == "0":
+                        ft = tgt
+                tt = t[3]
+            out.append((bb, r[1], r[2], r[3], dest, tt, ft))
+    return out
+
+
+def rejects_below(body, x_op, lo, sink_bb):
+    """is there a comparison that sends every value < lo away from sink_bb?"""
+    for (bb, op, a, b, d, tt, ft) in comparisons(body):
+        if tt is None:
+            continue
+        ka, kb = const_eval(body, a), const_eval(body, b)
+        rej = None
+        if same_value(body, a, x_op) and kb is not None:
+            if op == "Lt" and kb == lo: rej = tt
+            if op == "Le" and kb == lo - 1: rej = tt
+            if op == "Ge" and kb == lo: rej = ft
+            if op == "Gt" and kb == lo - 1: rej = ft
+        if same_value(body, b, x_op) and ka is not None:
+            if op == "Gt" and ka == lo: rej = tt
+            if op == "Ge" and ka == lo - 1: rej = tt
+            if op == "Le" and ka == lo: rej = ft
+            if op == "Lt" and ka == lo - 1: rej = ft
+        if rej is not None and body.dominates(bb, sink_bb) and sink_bb not in body.reachable(rej, avoid=[bb]):
+            return True
+    return False
+
+
+def rejects_above(body, x_op, hi, sink_bb):
+    for (bb, op, a, b, d, tt, ft) in comparisons(body):
+        if tt is None:
+            continue
+        ka, kb = const_eval(body, a), const_eval(body, b)
+        rej = None
+        if same_value(body, a, x_op) and kb is not None:
+            if op == "Gt" and kb == hi: rej = tt
+            if op == "Ge" and kb == hi + 1: rej = tt
+            if op == "Le" and kb == hi: rej = ft
+            if op == "Lt" and kb == hi + 1: rej = ft
+        if same_value(body, b, x_op) and ka is not None:
+            if op == "Lt" and ka == hi: rej = tt
+            if op == "Le" and ka == hi + 1: rej = tt
+            if op == "Ge" and ka == hi: rej = ft
+            if op == "Gt" and ka == hi + 1: rej = ft
+        if rej is not None and body.dominates(bb, sink_bb) and sink_bb not in body.reachable(rej, avoid=[bb]):
+            return True
+    return False
+
+
+def rejects_equal(body, x_op, k, sink_bb):
+    for (bb, op, a, b, d, tt, ft) in comparisons(body):
+        if tt is None:
+            continue
+        ka, kb = const_eval(body, a), const_eval(body, b)
+        rej = None
+        if (same_value(body, a, x_op) and kb == k) or (same_value(body, b, x_op) and ka == k):
+            if op == "Eq": rej = tt
+            if op == "Ne": rej = ft
+        if rej is not None and body.dominates(bb, sink_bb) and sink_bb not in body.reachable(rej, avoid=[bb]):
+            return True
+    return False
+
+
+def narrowing_casts(body):
+    """IntToInt casts whose target cannot represent every source value: [(bb, stmt, src_ty, dst_ty)]"""
+    out = []
+    for bb, s in body.all_stmts():
+        r = s[1]
+        if r[0] == "cast" and r[1] == "IntToInt" and r[4] in INT_BOUNDS and r[3] in INT_BOUNDS:
+            slo, shi = INT_BOUNDS[r[4]]
+            dlo, dhi = INT_BOUNDS[r[3]]
+            if slo < dlo or shi > dhi:
+                out.append((bb, s, r[4], r[3]))
+    return out
